@@ -211,6 +211,12 @@ def exc_last_line(exc):
     return '%s: %s' % (shown, msg)
 
 
+def ell_prefix(st):
+    """the part of the statement's output line an 'ell' want spells out (the
+    point id makes it unique to this statement)"""
+    return 'Tk' + st['pts'][0]
+
+
 def want_lines_for(st, window_nominal):
     """lines of the want of this step under the nominal plan, or None"""
     w = st.get('want')
@@ -263,6 +269,10 @@ def want_lines_for(st, window_nominal):
         return text.rstrip('\n').split('\n')
     elif w == 'text':
         text = 'SomeWantText%d\n' % st['i']
+    elif w == 'ell':
+        # the statement's own (single) output line with its tail replaced by an
+        # ellipsis: satisfied exactly when ELLIPSIS is on
+        text = ell_prefix(st) + '...\n'
     elif w == 'stale':
         # a want on a statement that writes nothing and has no value, made of
         # text that was true *earlier* in the same doctest: the repr of an earlier
